@@ -196,8 +196,6 @@ def api_main(g, job):
                 # (the scoped PDU was encrypted before the message turned out too large: one salt is spent on it)
                 r = sess.op("get_many", [[t + ".%d" % k for k in range(700)]])
                 rec["refused"] = rec.get("refused", 0) + 1
-                if state["req"]:
-                    rec["problems"].append({"key": "sent-on-error", "what": "a request that does not fit the buffer was sent"})
             elif op == "get":
                 r = sess.op("get", [t])
             elif op == "get_many":
@@ -207,9 +205,14 @@ def api_main(g, job):
             else:
                 r = sess.op("getbulk", [t, 5], 3)
             rec["ops"].append(op)
-            import time
-            time.sleep(0)
-            for data in state["req"]:
+            # a call may come back (it timed out at 10 ms) before the agent's thread has even seen its request: wait until the
+            # agent is idle, then take what it recorded in one step, so that every message is counted with the step that sent it
+            if op != "first":
+                agent.quiesce()
+            reqs, state["req"] = state["req"], []
+            if op == "toolarge" and reqs:
+                rec["problems"].append({"key": "sent-on-error", "what": "a request that does not fit the buffer was sent"})
+            for data in reqs:
                 try:
                     m = ber.s_message(data)
                 except ber.Strict as e:
@@ -225,7 +228,6 @@ def api_main(g, job):
                 needle = ber.oid_content(arcs)[4:]       # the distinctive part of the requested OID
                 if op not in ("first", "refresh") and needle in clear:
                     rec["problems"].append({"key": "oid-in-clear", "what": "the requested OID appears outside the ciphertext", "datagram": data.hex()})
-            state["req"] = []
         sess.close()
         agent.close()
         out.append(rec)
